@@ -274,6 +274,41 @@ def left_nested_power(ctx, tmpdir):
             ctx.count("nested_power_ok")
 
 
+def both_attributes(ctx, tmpdir):
+    """species that carry an initialAmount *and* an initialConcentration (files written by other tools; libsbml reads both):
+    a non-zero amount takes precedence however small it is, an amount of exactly 0 gives way to the concentration."""
+    from bioscrape.types import Model
+    cases = [("S_both", 3.0, 7.0, 3.0), ("S_milli", 1e-3, 7.0, 1e-3), ("S_micro", 1.5e-6, 1.5, 1.5e-6), ("S_nano", 2e-9, 0.002, 2e-9),
+             ("S_pico", 5e-12, 1.0, 5e-12), ("S_zero", 0.0, 4.0, 4.0)]
+    doc = libsbml.SBMLDocument(3, 2)
+    m = doc.createModel(); m.setId("both_attributes")
+    c = m.createCompartment(); c.setId("cell"); c.setSize(1.0); c.setConstant(True); c.setSpatialDimensions(3)
+    for sid, am, _, _ in cases:
+        sp = m.createSpecies(); sp.setId(sid); sp.setCompartment("cell"); sp.setConstant(False); sp.setBoundaryCondition(False)
+        sp.setHasOnlySubstanceUnits(False); sp.setInitialAmount(am)
+    p_ = m.createParameter(); p_.setId("k"); p_.setValue(1.0); p_.setConstant(True)
+    r = m.createReaction(); r.setId("r0"); r.setReversible(False)
+    sr = r.createReactant(); sr.setSpecies("S_both"); sr.setStoichiometry(1.0); sr.setConstant(True)
+    r.createKineticLaw().setMath(libsbml.parseL3Formula("k * S_both"))
+    path = os.path.join(tmpdir, "both.xml")
+    txt = libsbml.writeSBMLToString(doc)
+    for sid, am, conc, _ in cases:
+        pos = txt.index('id="%s"' % sid)
+        end = txt.index(">", pos)
+        txt = txt[:pos] + re.sub(r'initialAmount="[^"]*"', 'initialAmount="%r" initialConcentration="%r"' % (am, conc), txt[pos:end]) + txt[end:]
+    open(path, "w").write(txt)
+    case = {"document": "species with both initial attributes", "species": [(sid, am, conc) for sid, am, conc, _ in cases]}
+    ctx.begin_case(case)
+    sd = Model(sbml_filename=path, sbml_warnings=False).get_species_dictionary()
+    ctx.evaluated()
+    for sid, am, conc, want in cases:
+        if sid not in sd or float(sd[sid]) != want:
+            ctx.violation("initial-value/both-attributes", "species %s (initialAmount=%r, initialConcentration=%r) is imported with %r, the amount %s gives %r"
+                          % (sid, am, conc, sd.get(sid), "is non-zero and" if am != 0 else "is zero: the concentration", want), dict(case, imported={k: float(v) for k, v in sd.items()}))
+            return
+    ctx.count("both_attribute_species", len(cases))
+
+
 def run(ctx):
     warnings.filterwarnings("ignore")
     n = 60 if ctx.quick() else 2000
@@ -281,6 +316,7 @@ def run(ctx):
         for i in range(n):
             one(ctx, ctx.rng, d)
         left_nested_power(ctx, d)
+        both_attributes(ctx, d)
 
 
 def replay(ctx, obj):
